@@ -5,7 +5,7 @@ From Coq Require Import List Arith Bool Lia.
 Import ListNotations.
 From KV Require Import Model.Placement Model.Kfac Model.KfacComm Proofs.KfacCommP.
 From KV Require Import Model.Neox Model.Shard Model.NeoxComm Proofs.NeoxCommP.
-From KV Require Import Proofs.KfacCommFlushP.
+From KV Require Import Proofs.KfacCommFlushP Proofs.KfacCommDtypeP.
 From KV Require Import Model.Coll Proofs.CollP.   (* last: CollP.steps / finished, not the record field Kfac.steps *)
 
 Section C03.
@@ -95,19 +95,19 @@ Qed.
    bucketed factors; one training iteration (hooks reduce the factors, the loop averages 2 gradients, step());
    rank 1 takes part in the inverse broadcasts of the second layer only and in the gradient broadcasts of its row *)
 Example kfac_issues_hybrid :
-  let c := {| pW := 4; pk := 2; pmeth := EigenPlain; psym := false; pfsz := 4; pisz := 4 |} in
+  let c := {| pW := 4; pk := 2; pmeth := EigenPlain; psym := false; pfsz := 4; pisz := 4; pfdt := 3; pidt := 3; pgdt := 4 |} in
   let ls := [ {| na := 2; ng := 3; wa := 0; wg := 2 |}; {| na := 3; ng := 1; wa := 1; wg := 1 |} ] in
   let cfg := {| c_hook := true; c_acc := 1; c_fus0 := HConst 1; c_ius0 := HConst 1 |} in
   let h := [HK (Fwd true); HK (Bwd true); HUser [6; 3]; HK Step] in
   wf_grid c /\ wf_roots c ls /\
   kfac_issues cfg c (Some 1000) ls 1 h =
-    [ar 6; ar 3; ar 23;
-     bc 2 9 1; bc 2 3 1; bc 2 1 1; bc 2 1 1;
-     bc 3 3 1; bc 3 6 0] /\
+    [ar 4 6; ar 4 3; ar 3 23;
+     bc 2 3 9 1; bc 2 3 3 1; bc 2 3 1 1; bc 2 3 1 1;
+     bc 3 4 3 1; bc 3 4 6 0] /\
   kfac_issues cfg c (Some 1000) ls 2 h =
-    [ar 6; ar 3; ar 23;
-     bc 1 4 0; bc 1 2 0; bc 1 9 2; bc 1 3 2;
-     bc 4 3 3; bc 4 6 2].
+    [ar 4 6; ar 4 3; ar 3 23;
+     bc 1 3 4 0; bc 1 3 2 0; bc 1 3 9 2; bc 1 3 3 2;
+     bc 4 4 3 3; bc 4 4 6 2].
 Proof.
   cbv zeta. split; [|split; [|split]].
   - unfold wf_grid, pp; cbn; lia.
@@ -126,6 +126,14 @@ Theorem queries_silent_at_step_boundary : forall c cap ls who bs hook acts incl,
 Proof.
   intros. split; [apply flush_after_flush_silent_l|]. split; [apply step_ends_with_flush|reflexivity].
 Qed.
+
+(* dtypes: every collective of the generator (hence, by the exact-log tie, of the code) carries the dtype of its event - factor
+   allreduces, direct or as a flat bucket, the factor dtype; inverse broadcasts the dtype of the second-order data; gradient
+   broadcasts the gradient dtype - on every rank and in the global order alike, so members of a group never disagree on it *)
+Theorem generator_dtypes : forall cfg c cap ls who h i,
+  In i (snd (crun c cap ls who [] (kcevs cfg [] (init (c_fus0 cfg) (c_ius0 cfg)) h))) ->
+  exists e, In e (kcevs cfg [] (init (c_fus0 cfg) (c_ius0 cfg)) h) /\ idtype i = ev_dt c e /\ ikind i = ev_kind e.
+Proof. intros cfg c cap ls who h i. exact (crun_dtype c cap ls who _ [] (st_fac_nil c) i). Qed.
 
 (* ---- GPT-NeoX: the same on the pipe x data x model topology ----
    What rank r issues during training with GPTNeoXKFACPreconditioner (the all_gathers of sharded inputs / output gradients
@@ -158,11 +166,11 @@ Qed.
    forward / backward / step; rank 3 = (d 1, m 1) is neither the primary of its model-parallel group nor in the
    inverse worker's: it gathers its input shard, joins the stage allreduce of G and receives the gradient *)
 Example neox_issues_2x2 :
-  let c := {| nP := 1; nD := 2; nM := 2; nsym := false |} in
+  let c := {| nP := 1; nD := 2; nM := 2; nsym := false; nfdt := 3; nxdt := 4 |} in
   let ls := fun _ : nat => [ {| x_par := ParInput; x_in := 2; x_out := 3; x_bias := true; x_rows := 2; x_inv := 0 |} ] in
-  neox_issues c ls 3 [NFwd 0; NBwd 0; NStep] = [ins 2 3 2 0; ins 5 1 9 0; ins 4 2 6 2] /\
+  neox_issues c ls 3 [NFwd 0; NBwd 0; NStep] = [ins 2 3 4 2 0; ins 5 1 3 9 0; ins 4 2 4 6 2] /\
   neox_issues c ls 0 [NFwd 0; NBwd 0; NStep] =
-    [ins 1 3 2 0; ins 3 1 9 0; ins 5 1 9 0; ins 1 3 3 0; ins 1 4 3 0; ins 1 2 3 1; ins 3 2 6 1].
+    [ins 1 3 4 2 0; ins 3 1 3 9 0; ins 5 1 3 9 0; ins 1 3 4 3 0; ins 1 4 4 3 0; ins 1 2 4 3 1; ins 3 2 4 6 1].
 Proof. split; vm_compute; reflexivity. Qed.
 
 (* per-group matching WITHOUT one global order is not enough: two ranks, two
@@ -196,5 +204,6 @@ Print Assumptions every_execution_completes.
 Print Assumptions kfac_comm_proj.
 Print Assumptions kfac_never_stalls.
 Print Assumptions queries_silent_at_step_boundary.
+Print Assumptions generator_dtypes.
 Print Assumptions neox_comm_proj.
 Print Assumptions neox_never_stalls.
